@@ -150,7 +150,7 @@ PROPS.update({
     "C07": mk("C07", [("cyc", GB.case_cycle, 1)], 900, 20000,
               proj_lines(("op ", "out ", "abort ", "done", "skipped", "tl ", "st ", "bad-op")), OB.c07, [],
               proj_name="C07: abort kinds, task-side log, store dump"),
-    "C08": mk("C08", [("td", GB.case_td, 2), ("bu", GB.case_bu, 1), ("pan", GB.case_panic, 1), ("k2", GB.case_multichecker, 1)], 900, 20000,
+    "C08": mk("C08", [("td", GB.case_td, 2), ("bu", GB.case_bu, 1), ("bud", GB.case_bu_dense, 1), ("pan", GB.case_panic, 1), ("k2", GB.case_multichecker, 1)], 900, 20000,
               proj_lines(("op ", "st ", "abort ", "bad-op")), OB.c08, [],
               proj_name="C08: store dump after every session", known_match=known_if_model_agrees("K2", OB.c08)),
     "C09": mk("C09", WELL + [("fail", GB.case_failing_checker, 1)], 900, 20000,
